@@ -59,7 +59,7 @@ Section HeapProofs.
   Lemma lt_trans : forall a b c, good a -> good b -> good c ->
       ltb a b = true -> ltb b c = true -> ltb a c = true.
   Proof.
-    intros. eapply lt_le_trans; eauto. apply lt_le; auto.
+    intros a b c Ha Hb Hc Hab Hbc. apply lt_le_trans with (b := b); auto. apply lt_le; auto.
   Qed.
 
   Lemma le_total : forall a b, good a -> good b -> le a b \/ le b a.
@@ -78,11 +78,10 @@ Section HeapProofs.
       nth_error (upd es i c) j =
       if (j =? i) && (i <? length es) then Some c else nth_error es j.
   Proof.
-    induction es as [|x r IH]; intros [|i] [|j] c; cbn [upd nth_error length]; auto.
-    - rewrite andb_false_r; reflexivity.
-    - rewrite andb_false_r; reflexivity.
-    - rewrite IH. change (S j =? S i) with (j =? i). change (S i <? S (length r)) with (i <? length r).
-      reflexivity.
+    induction es as [|x r IH]; intros i j c.
+    - destruct i, j; cbn; try reflexivity; destruct (j =? i); reflexivity.
+    - destruct i as [|i], j as [|j]; cbn [upd nth_error length]; try reflexivity.
+      rewrite IH. reflexivity.
   Qed.
 
   Lemma cset_some : forall (es : cells) i e, i < length es -> exists es', cset es i e = Some es'.
@@ -145,6 +144,288 @@ Section HeapProofs.
     - intros [->| ->].
       + rewrite Nat.mul_comm. apply Nat.div_mul. lia.
       + rewrite Nat.mul_comm, Nat.add_comm. rewrite Nat.div_add by lia. reflexivity.
+  Qed.
+
+  (** ** bubble_up (the while loop of insert) *)
+  Section BubbleUp.
+    Variable k : K.
+    Variable len : nat.
+    Hypothesis Hk : good k.
+
+    (** state of the loop: cell [pos] is a hole that will receive the new key [k] *)
+    Record BU (es : cells) (pos : nat) : Prop := {
+      bu_pos : 1 <= pos < len;
+      bu_len : len <= length es;
+      bu_sent : cget es 0 = Some sentinel;
+      bu_ok : forall i, 1 <= i < len -> i <> pos -> cell_ok es i;
+      bu_a : forall i e p, 1 <= i < len -> i <> pos -> i / 2 <> pos ->
+             cget es i = Some e -> cget es (i / 2) = Some p -> le (ekey p) (ekey e);
+      bu_b : forall i e, 1 <= i < len -> i / 2 = pos -> cget es i = Some e -> le k (ekey e);
+      bu_c : forall i e p, 1 <= i < len -> i / 2 = pos ->
+             cget es i = Some e -> cget es (pos / 2) = Some p -> le (ekey p) (ekey e)
+    }.
+
+    Lemma bu_good : forall es pos j e, BU es pos -> j < len -> j <> pos -> cget es j = Some e -> good (ekey e).
+    Proof.
+      intros es pos j e B Hj Hne Hg. destruct (Nat.eq_dec j 0) as [->|Hj0].
+      - rewrite (bu_sent _ _ B) in Hg. inversion Hg; subst. exact bot_good.
+      - destruct (bu_ok _ _ B j ltac:(lia) Hne) as (e' & He' & Hgood & _). congruence.
+    Qed.
+
+    Lemma bubble_up_spec : forall fuel es pos, pos < fuel -> BU es pos ->
+      exists es' pos', bubble_up fuel es pos k = Some (es', pos') /\ BU es' pos' /\
+        (forall p, cget es' (pos' / 2) = Some p -> le (ekey p) k) /\
+        length es' = length es /\
+        (forall e, (exists i, 1 <= i < len /\ i <> pos' /\ cget es' i = Some e) <->
+                   (exists i, 1 <= i < len /\ i <> pos /\ cget es i = Some e)).
+    Proof.
+      induction fuel as [|f IH]; intros es pos Hf B; [lia|].
+      pose proof (bu_pos _ _ B) as Hpos.
+      assert (Hpar : pos / 2 < pos) by (apply div2_lt; lia).
+      assert (Hpe : exists pe, cget es (pos / 2) = Some pe /\ good (ekey pe) /\
+                               (pos / 2 <> 0 -> ehd pe <> None)).
+      { destruct (Nat.eq_dec (pos / 2) 0) as [E0|E0].
+        - rewrite E0. exists sentinel. split; [apply (bu_sent _ _ B)|]. split; [exact bot_good|]. congruence.
+        - destruct (bu_ok _ _ B (pos / 2) ltac:(lia) ltac:(lia)) as (pe & H1 & H2 & H3).
+          exists pe; auto. }
+      destruct Hpe as (pe & Hpe & Hgpe & Hhdpe).
+      cbn [Heap.bubble_up]. rewrite Hpe. cbn [obind].
+      destruct (ltb k (ekey pe)) eqn:Elt.
+      - (* move the parent down *)
+        assert (Hp0 : pos / 2 <> 0).
+        { intros E0. rewrite E0 in Hpe. rewrite (bu_sent _ _ B) in Hpe. inversion Hpe; subst.
+          cbn in Elt. rewrite bot_least in Elt. discriminate. }
+        destruct (cset_some es pos pe) as (es' & Hset).
+        { pose proof (bu_len _ _ B). lia. }
+        rewrite Hset. cbn [obind].
+        destruct (cset_inv _ _ _ _ Hset) as (_ & Hlen' & G).
+        assert (Gpos : cget es' pos = Some pe) by (rewrite G, Nat.eqb_refl; reflexivity).
+        assert (Gne : forall j, j <> pos -> cget es' j = cget es j).
+        { intros j Hj. rewrite G. destruct (Nat.eqb_spec j pos); [contradiction|reflexivity]. }
+        assert (Hsib : forall i e, 1 <= i < len -> i <> pos -> i / 2 = pos / 2 ->
+                                   cget es i = Some e -> le (ekey pe) (ekey e)).
+        { intros i e Hi Hne Hi2 Hge. apply (bu_a _ _ B i e pe); auto; try lia. rewrite Hi2; auto. }
+        assert (B' : BU es' (pos / 2)).
+        { constructor.
+          - lia.
+          - rewrite Hlen'. apply (bu_len _ _ B).
+          - rewrite Gne by lia. apply (bu_sent _ _ B).
+          - intros i Hi Hne. destruct (Nat.eq_dec i pos) as [->|Hip].
+            + exists pe. rewrite Gpos. auto.
+            + unfold cell_ok. rewrite Gne by auto. apply (bu_ok _ _ B); auto.
+          - intros i e p Hi Hne Hne2 Hge Hgp.
+            destruct (Nat.eq_dec i pos) as [->|Hip]; [contradiction|].
+            rewrite Gne in Hge by auto.
+            destruct (Nat.eq_dec (i / 2) pos) as [E2|E2].
+            + rewrite E2, Gpos in Hgp. inversion Hgp; subst p.
+              apply (bu_c _ _ B i e pe); auto.
+            + rewrite Gne in Hgp by auto. apply (bu_a _ _ B i e p); auto.
+          - intros i e Hi Hi2 Hge.
+            destruct (Nat.eq_dec i pos) as [->|Hip].
+            + rewrite Gpos in Hge. inversion Hge; subst e. apply lt_le; auto.
+            + rewrite Gne in Hge by auto.
+              assert (good (ekey e)) by (eapply bu_good; eauto; lia).
+              apply le_trans with (b := ekey pe); auto.
+              * apply lt_le; auto.
+              * apply (Hsib i e); auto.
+          - intros i e p Hi Hi2 Hge Hgp.
+            assert (Hpp : pos / 2 / 2 < pos / 2) by (apply div2_lt; lia).
+            rewrite Gne in Hgp by lia.
+            assert (Hppe : le (ekey p) (ekey pe)).
+            { apply (bu_a _ _ B (pos / 2) pe p); auto; lia. }
+            destruct (Nat.eq_dec i pos) as [->|Hip].
+            + rewrite Gpos in Hge. inversion Hge; subst e. exact Hppe.
+            + rewrite Gne in Hge by auto.
+              assert (good (ekey e)) by (eapply bu_good; eauto; lia).
+              assert (good (ekey p)) by (eapply bu_good with (j := pos / 2 / 2); eauto; lia).
+              apply le_trans with (b := ekey pe); auto.
+              apply (Hsib i e); auto. }
+        destruct (IH es' (pos / 2) ltac:(lia) B') as (es2 & pos2 & Hrun & B2 & Hpar2 & Hlen2 & Hmem2).
+        exists es2, pos2. split; [exact Hrun|]. split; [exact B2|]. split; [exact Hpar2|].
+        split; [congruence|].
+        intros e. rewrite Hmem2. split.
+        + intros (i & Hi & Hne & Hge). destruct (Nat.eq_dec i pos) as [->|Hip].
+          * rewrite Gpos in Hge. inversion Hge; subst e. exists (pos / 2). repeat split; auto; lia.
+          * rewrite Gne in Hge by auto. exists i; auto.
+        + intros (i & Hi & Hne & Hge). destruct (Nat.eq_dec i (pos / 2)) as [->|Hip].
+          * exists pos. rewrite Gpos. repeat split; auto; try lia. congruence.
+          * exists i. rewrite Gne by auto. auto.
+      - exists es, pos. split; [reflexivity|]. split; [exact B|]. split.
+        + intros p Hp. rewrite Hpe in Hp. inversion Hp; subst p. exact Elt.
+        + split; [reflexivity|]. intros e; reflexivity.
+    Qed.
+
+    Lemma bubble_up_finish : forall es pos nw es3, BU es pos ->
+      (forall p, cget es (pos / 2) = Some p -> le (ekey p) k) ->
+      cset es pos nw = Some es3 -> ekey nw = k -> ehd nw <> None ->
+      cget es3 0 = Some sentinel /\ (forall i, 1 <= i < len -> cell_ok es3 i) /\
+      ordered_from 0 es3 len /\ length es3 = length es /\
+      (forall e, In_cells es3 len e <-> e = nw \/ exists i, 1 <= i < len /\ i <> pos /\ cget es i = Some e).
+    Proof.
+      intros es pos nw es3 B Hpar Hset Hkey Hhd.
+      pose proof (bu_pos _ _ B) as Hpos.
+      destruct (cset_inv _ _ _ _ Hset) as (_ & Hlen' & G).
+      assert (Gpos : cget es3 pos = Some nw) by (rewrite G, Nat.eqb_refl; reflexivity).
+      assert (Gne : forall j, j <> pos -> cget es3 j = cget es j).
+      { intros j Hj. rewrite G. destruct (Nat.eqb_spec j pos); [contradiction|reflexivity]. }
+      split; [rewrite Gne by lia; apply (bu_sent _ _ B)|].
+      split.
+      { intros i Hi. destruct (Nat.eq_dec i pos) as [->|Hip].
+        - exists nw. rewrite Gpos, Hkey. auto.
+        - unfold cell_ok. rewrite Gne by auto. apply (bu_ok _ _ B); auto. }
+      split.
+      { intros i e p Hi _ Hge Hgp.
+        assert (i / 2 < i) by (apply div2_lt; lia).
+        destruct (Nat.eq_dec i pos) as [->|Hip].
+        - rewrite Gpos in Hge. inversion Hge; subst e. rewrite Hkey.
+          rewrite Gne in Hgp by lia. apply Hpar; auto.
+        - rewrite Gne in Hge by auto.
+          destruct (Nat.eq_dec (i / 2) pos) as [E2|E2].
+          + rewrite E2, Gpos in Hgp. inversion Hgp; subst p. rewrite Hkey.
+            apply (bu_b _ _ B i e); auto.
+          + rewrite Gne in Hgp by auto. apply (bu_a _ _ B i e p); auto. }
+      split; [exact Hlen'|].
+      intros e. unfold In_cells. split.
+      - intros (i & Hi & Hge). destruct (Nat.eq_dec i pos) as [->|Hip].
+        + rewrite Gpos in Hge. inversion Hge. auto.
+        + rewrite Gne in Hge by auto. right. exists i; auto.
+      - intros [->|(i & Hi & Hne & Hge)].
+        + exists pos. auto.
+        + exists i. rewrite Gne by auto. auto.
+    Qed.
+  End BubbleUp.
+
+  (** ** insert *)
+  Lemma insert_core : forall es pos k nw, good k -> ekey nw = k -> ehd nw <> None ->
+    1 <= pos -> pos + 2 <= length es -> cget es 0 = Some sentinel ->
+    (forall i, 1 <= i < pos -> cell_ok es i) -> ordered_from 0 es pos ->
+    exists es2 pos2 es3, bubble_up (S pos) es pos k = Some (es2, pos2) /\
+      cset es2 pos2 nw = Some es3 /\ cget es3 0 = Some sentinel /\
+      (forall i, 1 <= i < S pos -> cell_ok es3 i) /\ ordered_from 0 es3 (S pos) /\
+      length es3 = length es /\
+      (forall e, In_cells es3 (S pos) e <-> e = nw \/ In_cells es pos e).
+  Proof.
+    intros es pos k nw Hk Hkey Hhd Hpos Hlen Hsent Hok Hord.
+    assert (B : BU k (S pos) es pos).
+    { constructor; auto; try lia.
+      - intros i Hi Hne. apply Hok. lia.
+      - intros i e p Hi Hne Hne2 Hge Hgp. apply (Hord i e p); auto; lia.
+      - intros i e Hi Hi2 Hge. pose proof (div2_lt i ltac:(lia)). lia.
+      - intros i e p Hi Hi2 Hge Hgp. pose proof (div2_lt i ltac:(lia)). lia. }
+    destruct (bubble_up_spec k (S pos) Hk (S pos) es pos ltac:(lia) B)
+      as (es2 & pos2 & Hrun & B2 & Hpar2 & Hlen2 & Hmem2).
+    destruct (cset_some es2 pos2 nw) as (es3 & Hset).
+    { pose proof (bu_pos _ _ _ _ B2). pose proof (bu_len _ _ _ _ B2). lia. }
+    destruct (bubble_up_finish k (S pos) Hk es2 pos2 nw es3 B2 Hpar2 Hset Hkey Hhd)
+      as (F1 & F2 & F3 & F4 & F5).
+    exists es2, pos2, es3. repeat (split; [assumption|]).
+    split; [congruence|].
+    intros e. rewrite F5, Hmem2. unfold In_cells. split.
+    - intros [->|(i & Hi & Hne & Hge)]; [auto|]. right. exists i. split; [lia|auto].
+    - intros [->|(i & Hi & Hge)]; [auto|]. right. exists i. repeat split; auto; lia.
+  Qed.
+
+  (** the allocation step of insert, as a separate term *)
+  Definition insert_prep (h : heap) : option (cells * nat * nat * nat) :=
+    let position := hlen h in
+    let len1 := S (hlen h) in
+    if hsize h <? len1 + 1 then
+      let old_size := hsize h in
+      let new_size := if old_size =? 0 then 64 else old_size * 2 in
+      let es := entries h ++ repeat None (new_size - old_size) in
+      if old_size =? 0 then
+        es0 <- cset es 0 sentinel ;;
+        Some (es0, S len1, new_size, S position)
+      else Some (es, len1, new_size, position)
+    else Some (entries h, len1, hsize h, position).
+
+  Lemma insert_unfold : forall h k hd c,
+    insert h k hd c =
+    (' (es, len, size, position) <- insert_prep h ;;
+     ' (es2, pos2) <- bubble_up (S position) es position k ;;
+     es3 <- cset es2 pos2 (mkE k (Some hd) c) ;;
+     Some (mkHeap es3 len size)).
+  Proof. reflexivity. Qed.
+
+  Lemma insert_prep_spec : forall h, heap_inv h ->
+    exists es pos size, insert_prep h = Some (es, S pos, size, pos) /\
+      1 <= pos /\ pos + 2 <= size /\ length es = size /\ hsize h <= size /\
+      cget es 0 = Some sentinel /\ (forall i, 1 <= i < pos -> cell_ok es i) /\
+      ordered_from 0 es pos /\ (forall e, In_cells es pos e <-> In_heap h e).
+  Proof.
+    intros [es len size] (Hl & Hinv). cbn [entries hlen hsize] in *.
+    unfold insert_prep. cbn [entries hlen hsize].
+    destruct Hinv as [(H0 & H1)|(H1 & H2 & H3 & H4 & H5)].
+    - subst len size. destruct es; [|discriminate].
+      change (0 <? 1 + 1) with true. change (0 =? 0) with true. cbv iota.
+      match goal with |- context[cset ?x 0 sentinel] => set (es1 := x) end.
+      assert (Hlen1 : length es1 = 64).
+      { unfold es1. rewrite app_length, repeat_length. reflexivity. }
+      destruct (cset_some es1 0 sentinel ltac:(lia)) as (es0 & Hset).
+      rewrite Hset. cbn [obind].
+      destruct (cset_inv _ _ _ _ Hset) as (_ & Hlen0 & G).
+      exists es0, 1, 64. split; [reflexivity|].
+      split; [lia|]. split; [lia|]. split; [lia|]. split; [lia|].
+      split; [rewrite G; reflexivity|].
+      split; [intros i Hi; lia|].
+      split; [intros i e p Hi; lia|].
+      intros e. split.
+      + intros (i & Hi & _); lia.
+      + intros (i & Hi & _). cbn in Hi. lia.
+    - destruct (size <? S len + 1) eqn:Eg.
+      + apply Nat.ltb_lt in Eg.
+        destruct (Nat.eqb_spec size 0) as [E0|E0]; [lia|].
+        match goal with |- context[Some (?x, _, _, _)] => set (es1 := x) end.
+        assert (Hlen1 : length es1 = size * 2).
+        { unfold es1. rewrite app_length, repeat_length. lia. }
+        assert (G : forall i, i < size -> cget es1 i = cget es i).
+        { intros i Hi. unfold es1. apply cget_app_l. lia. }
+        exists es1, len, (size * 2). split; [reflexivity|].
+        split; [lia|]. split; [lia|]. split; [lia|]. split; [lia|].
+        split; [rewrite G by lia; exact H3|].
+        split; [intros i Hi; unfold cell_ok; rewrite G by lia; apply H4; auto|].
+        split.
+        { intros i e p Hi _ Hge Hgp. pose proof (div2_lt i ltac:(lia)).
+          rewrite G in Hge, Hgp by lia. apply (H5 i e p); auto; lia. }
+        intros e. split.
+        * intros (i & Hi & Hge). exists i. rewrite G in Hge by lia. auto.
+        * intros (i & Hi & Hge). exists i. rewrite G by (cbn in Hi; lia). auto.
+      + apply Nat.ltb_ge in Eg.
+        exists es, len, size. split; [reflexivity|].
+        split; [lia|]. split; [lia|]. split; [lia|]. split; [lia|].
+        split; [exact H3|]. split; [exact H4|]. split; [exact H5|].
+        intros e; reflexivity.
+  Qed.
+
+  Lemma insert_spec : forall h k hd c, heap_inv h -> good k ->
+    exists h', insert h k hd c = Some h' /\ heap_inv h' /\
+      (forall e, In_heap h' e <-> e = mkE k (Some hd) c \/ In_heap h e) /\
+      hsize h <= hsize h' /\ 2 <= hlen h' /\
+      hlen h' = (if hlen h =? 0 then 2 else S (hlen h)).
+  Proof.
+    intros h k hd c Hinv Hk.
+    destruct (insert_prep_spec h Hinv) as (es & pos & size & Hprep & P1 & P2 & P3 & P4 & P5 & P6 & P7 & P8).
+    destruct (insert_core es pos k (mkE k (Some hd) c) Hk eq_refl ltac:(discriminate) P1 ltac:(lia) P5 P6 P7)
+      as (es2 & pos2 & es3 & Hrun & Hset & F1 & F2 & F3 & F4 & F5).
+    rewrite insert_unfold, Hprep. cbn [obind]. rewrite Hrun. cbn [obind]. rewrite Hset. cbn [obind].
+    eexists. split; [reflexivity|].
+    split.
+    { split; cbn [entries hlen hsize]; [congruence|]. right.
+      repeat split; auto; lia. }
+    split.
+    { intros e. unfold In_heap at 1. cbn [entries hlen]. rewrite F5, P8. reflexivity. }
+    cbn [hsize hlen]. split; [exact P4|]. split; [lia|].
+    (* relation between the lengths *)
+    revert Hprep. unfold insert_prep.
+    destruct Hinv as (_ & [(H0 & H1)|(H1 & H2 & _)]).
+    - rewrite H0, H1. change (0 <? 1 + 1) with true. change (0 =? 0) with true. cbv iota.
+      destruct (cset _ 0 sentinel); cbn [obind]; [|discriminate].
+      intros E; inversion E; reflexivity.
+    - destruct (hlen h =? 0) eqn:E0; [apply Nat.eqb_eq in E0; lia|].
+      destruct (hsize h <? S (hlen h) + 1).
+      + destruct (Nat.eqb_spec (hsize h) 0); [lia|].
+        intros E; inversion E. lia.
+      + intros E; inversion E. lia.
   Qed.
 
 End HeapProofs.
